@@ -27,7 +27,7 @@ THEOREMS = [
     'Ndn.C13.srcKey_finer_than_shape', 'Ndn.C13.keySplit_example', 'Ndn.C13.prefixMerged_example',
     # Checker.load on every byte string (decoder model of C07/C08 composed with the loader model)
     'Ndn.C13.load_decode_errors', 'Ndn.C13.load_error_classes', 'Ndn.C13.load_accepted_terminates', 'Ndn.C13.load_total',
-    'Ndn.C13.load_modelError_not_sane', 'Ndn.C13.lvsModel_schema_ok',
+    'Ndn.C13.load_modelError_not_sane', 'Ndn.C13.lvsModel_schema_ok', 'Ndn.C13.bound_needs_maxPE',
     # generated tables (lean/NdnGen) pinned to the model
     'Ndn.C13.versions_table', 'Ndn.C13.binary_layout_table', 'Ndn.C13.binary_layout_is_shipped_schema',
     'Ndn.C13.loader_rules_table', 'Ndn.C13.compiler_errors_table',
@@ -74,7 +74,8 @@ PARTIAL = {
         'decoding error, or LvsModelError / SemanticError (TypeError exactly when the bytes carry no StartId while version and node ids '
         'are in order - not a documented sanity rule, reported as observation), or returns a model on which every search ends within '
         'stepBound(maxPE m, |name|) (load_total). The bound is in the largest number of pattern edges of a node, not in the number of '
-        'nodes: a sane model may list the same destination on several edges, so no bound in (nodes, name length) alone exists; a model '
+        'nodes: a sane model may list the same destination on several edges (bound_needs_maxPE: two nodes, three edges, accepted, three '
+        'matches), so no bound in (nodes, name length) alone exists; a model '
         'without NamedPatternCnt loads, and its searches are those of any count cut at the first TypeError (not modelled).',
 }
 TRUSTED = [
